@@ -186,6 +186,11 @@ pub fn catalogue(ts: u8, addr: u8, in_len: usize) -> Vec<(&'static str, Vec<u8>)
         ("diag_ext_device_cut", d(Some(62), Some(60), 0x08, vec![0x08, 0x04, 0x00, ts, 0x13, 0x37, 0x02])), // 20
         ("diag_ext_ident_cut", d(Some(62), Some(60), 0x08, vec![0x08, 0x04, 0x00, ts, 0x13, 0x37, 0x43, 0x01])), // 21
         ("diag_ext_channel_cut", d(Some(62), Some(60), 0x08, vec![0x08, 0x04, 0x00, ts, 0x13, 0x37, 0x81, 0x00])), // 22
+        // a cut-off block that is NOT the first one and announces fewer bytes than the whole extended area
+        // holds (a cut-off check against the whole buffer instead of the remainder lets it through)
+        ("diag_ext_2nd_ident_cut", d(Some(62), Some(60), 0x08, vec![0x08, 0x04, 0x00, ts, 0x13, 0x37, 0x04, 0xAA, 0xBB, 0xCC, 0x45, 0x01, 0x00])), // 23
+        ("diag_ext_2nd_device_cut", d(Some(62), Some(60), 0x08, vec![0x08, 0x04, 0x00, ts, 0x13, 0x37, 0x43, 0x01, 0x02, 0x04, 0xAA])), // 24
+        ("diag_ext_2nd_channel_cut", d(Some(62), Some(60), 0x08, vec![0x08, 0x04, 0x00, ts, 0x13, 0x37, 0x42, 0x01, 0x81, 0x00])), // 25
     ]
 }
 
